@@ -333,7 +333,7 @@ pub fn main_loop(mut p: impl Prop) {
             // per-case guards did not catch) ends the process with what was printed so far
             let beat = std::sync::Arc::new(std::sync::Mutex::new(std::time::Instant::now()));
             let beat2 = beat.clone();
-            let limit: u64 = std::env::var("VERIF_CASE_TIMEOUT_S").ok().and_then(|s| s.parse().ok()).unwrap_or(30);
+            let limit: u64 = std::env::var("VERIF_CASE_TIMEOUT_S").ok().and_then(|s| s.parse().ok()).unwrap_or(90);
             std::thread::spawn(move || loop {
                 std::thread::sleep(std::time::Duration::from_millis(500));
                 if beat2.lock().unwrap().elapsed().as_secs() > limit {
